@@ -462,7 +462,7 @@ func genCase(t *rapid.T) Case {
 		}
 	}
 	c.SegKind = rapid.IntRange(0, xport.SegKinds-1).Draw(t, "segk")
-	if c.SegKind == 2 || c.SegKind == 3 {
+	if c.SegKind == 2 || c.SegKind == 3 || c.SegKind == 5 {
 		c.Seg = rapid.SliceOfN(rapid.IntRange(1, 30), 1, 6).Draw(t, "seg")
 	}
 	c.LocalClose = rapid.IntRange(0, 5).Draw(t, "localclose") == 0
